@@ -36,6 +36,16 @@ QUANTS = ['*', '+', '{1000}', '{1,30}', '?', '{2}']
 SUFFIXES = ['', 'b', '$', r'\1', 'c']
 PREFIXES = ['', '(?r)', '(?i)']
 FUNCS = ['match', 'match_groups', 'match_all']
+# flag strings are input too: long, blank-separated, with an invalid tail, upper case, unknown letters
+ODD_FLAGS = ['i ' * 26 + '!', 'ims' * 200, ' ' * 2000, 'x' * 5000, 'I,M,S', 'i, m, s, ' * 12 + '?', 'i' * 40 + ' ' * 40 + 'q', 's\tm\ni' * 9 + '#']
+# programs evaluated through eval: several regex calls in ONE evaluation, the first ones harmless but costly to compile
+LONGPAT = '|'.join('w%05d' % i for i in range(6000))
+PROGRAMS = [
+    'match(s, big); match(s, evil)', 'match_all(s, big); match_groups(s, evil)', 'match(s, big); match(s, big2); match_all(s, evil)',
+    'x = match(s, "a"); match(s, evil)', 'match(s, evil)', 'map([big, big2, evil], p => 1); match(s, big) or match(s, evil)',
+    'match_groups(s, big, "i"); match(s, evil, "i")', 'l = [match(s, big), match(s, big2)]; match_all(s, evil)',
+    'f = p => match(s, p); f(big); f(big2); f(evil)', 'match(s, big) or match(s, big2) or match(s, "b") or match(s, evil)',
+]
 
 
 def subjects(n):
@@ -165,6 +175,20 @@ def _child(conn, jobs, mem):
     for pattern, sname, flags, fname in jobs:
         s = subj[sname]
         out = {'compile_s': None, 'call_s': None, 'calls': [], 'result': None}
+        if fname == '__program__':
+            del rec.calls[:]
+            p = api.new_parser()
+            names = {'s': 'a' * 25000, 'big': LONGPAT, 'big2': LONGPAT.replace('w', 'v'), 'evil': r'\w+\d'}
+            t = time.perf_counter()
+            try:
+                p.eval(pattern, names, max_ops_evaluated=1000)
+                out['result'] = 'ok'
+            except Exception as e:  # noqa
+                out['result'] = type(e).__name__
+            out['call_s'] = time.perf_counter() - t
+            out['calls'] = [(n, (to if isinstance(to, (int, float)) or to is None else str(to))) for n, to, _ in rec.calls]
+            conn.send(out)
+            continue
         if fname == '__compile__':
             t = time.perf_counter()
             try:
@@ -261,6 +285,17 @@ def judge(res, job, summ, recheck):
     if 'killed' in summ:
         recheck.append((job, 'call'))
         return True
+    if fname == '__program__':
+        tos = [to for n, to in summ['calls']]
+        res.outcome(f'program:{summ["result"]}:{len(tos)}')
+        bad = [to for to in tos if not (isinstance(to, (int, float)) and not isinstance(to, bool) and 0 < to <= 0.1)]
+        if bad:
+            res.violation('timeout-arg:program', 'inside one evaluation a regex engine call was made with no timeout or a timeout outside (0, 0.1]',
+                          dict(w, expected='timeout in (0, 0.1] on every matching call', observed=repr(summ['calls'][:6])))
+        # time: compile of the 48 KB alternations is legitimate and linear; the matching calls are bounded by their timeouts
+        if summ['call_s'] > 0.1 * max(1, len(tos)) + 2.0 + 1e-5 * 25000:
+            recheck.append((job, 'call'))
+        return True
     # oracle 1: timeouts
     tos = [to for n, to in summ['calls']]
     res.outcome(f'{fname}:{summ["result"]}:{len(tos)}')
@@ -282,7 +317,8 @@ def judge(res, job, summ, recheck):
 
 
 def work(task):
-    _, pats, b = task
+    _, pats, b = task[:3]
+    extra = len(task) > 3 and task[3]
     res = runner.Result()
     subs = [n for n, _ in subjects(b['SUBJECTS'])]
     recheck = []
@@ -300,11 +336,21 @@ def work(task):
             for fl in b['FLAGS']:
                 for fn in FUNCS:
                     jobs.append((p, sname, fl, fn))
+    if extra:
+        for prog in PROGRAMS:
+            jobs.append((prog, subs[0], '', '__program__'))
+        for fl in ODD_FLAGS:
+            for fn in FUNCS:
+                jobs.append(('a+b', subs[0], fl, fn))
     summs = supervised(jobs, honour_abort=True)
-    for job, summ in zip(jobs, summs):
+    for i, (job, summ) in enumerate(zip(jobs, summs)):
+        n_before = len(recheck)
         judge(res, job, summ, recheck)
-    for job, phase in recheck:
-        res.bag.add((job, phase))
+        if len(recheck) > n_before and i > 0 and recheck[-1][1] == 'call':
+            # a hang may depend on what the same process did just before: re-run WITH the predecessor
+            recheck[-1] = (job, 'call', jobs[i - 1])
+    for item in recheck:
+        res.bag.add(item)
     res.count('patterns', len(pats))
     return res
 
@@ -315,19 +361,25 @@ def main(tier, seed, t0):
     pats = patterns(b)
     step = max(1, len(pats) // 160)
     tasks = [('pats', pats[i:i + step], b) for i in range(0, len(pats), step)]
+    tasks.append(('pats', pats[:2], b, True))
     tasks = runner.rotate(tasks, seed)
     total = runner.run_tasks(work, tasks, selftest=False)
     # confirmation runs: first all candidates once more in parallel (8 at a time, half the cores idle); the ones still
     # over the bound a third time, alone on the idle machine
-    cands = sorted(total.bag)
+    cands = sorted(total.bag, key=repr)
     if ABORT.value:
         # the exploration was cut short: it is no longer exhaustive, and only a few candidates are confirmed
         cands = [c for c in cands if c[1] == 'compile'][:4] + [c for c in cands if c[1] == 'call'][:12]
     confirmed = 0
     import concurrent.futures as cf
+    def rerun(c):
+        if len(c) > 2:
+            return supervised([c[2], c[0]])[-1]
+        return supervised([c[0]])[0]
     with cf.ThreadPoolExecutor(max_workers=8) as ex:
-        second = list(ex.map(lambda c: supervised([c[0]])[0], cands))
-    for (job, phase), summ2 in zip(cands, second):
+        second = list(ex.map(rerun, cands))
+    for c, summ2 in zip(cands, second):
+        job, phase = c[0], c[1]
         pattern, sname, flags, fname = job
         subj = dict(subjects(9))[sname]
         bnd = bound_for(pattern, subj)
@@ -340,7 +392,7 @@ def main(tier, seed, t0):
         is_over = over(summ2)
         if is_over and 'killed' not in summ2:
             # finished but slow: could be load - third run alone (a call killed twice for silence is a hang)
-            last = supervised([job])[0]
+            last = rerun(c)
             total.count('confirmation_runs')
             is_over = over(last)
         if is_over:
@@ -349,7 +401,9 @@ def main(tier, seed, t0):
                 sig = f'compile-phase:{features(pattern)}'
                 what = 'pattern compilation alone exceeds the time bound (the timeout does not cover compilation)'
             else:
-                sig = f'call-time:{fname}:{features(pattern)}'
+                sig = f'call-time:{fname}:{features(pattern) if fname != "__program__" else "program"}' + (':after-previous-call' if len(c) > 2 else '')
+                if flags in ODD_FLAGS:
+                    sig = f'call-time:{fname}:flag-string'
                 what = 'a regex builtin exceeded the time bound'
             total.violation(sig, what, {'pattern': pattern, 'subject': sname, 'flags': flags, 'function': fname,
                                         'expected': f'<= {bnd:.2f} s', 'observed': 'killed after %.0f s of silence' % KILL_S if 'killed' in last else repr(last)})
@@ -368,7 +422,8 @@ def main(tier, seed, t0):
         'rule': '%d patterns from the regex-tree grammar (%d atoms x %d quantifiers nested to %d levels x %d suffixes x %d prefixes, plus '
                 'sequences / alternations of two, two-group and fuzzy forms) x %d subjects x %d flag strings x 3 builtins, each pattern '
                 'also compiled alone. distinct_nontrivial = distinct (builtin, outcome class, number of engine calls).'
-                % (len(pats), b['ATOMS'], b['QUANTS'], b['LEVELS'], len(SUFFIXES), len(PREFIXES), b['SUBJECTS'], len(b['FLAGS'])),
+                % (len(pats), b['ATOMS'], b['QUANTS'], b['LEVELS'], len(SUFFIXES), len(PREFIXES), b['SUBJECTS'], len(b['FLAGS']))
+                + ' Also %d adversarial flag strings x 3 builtins and %d programs with several regex calls in one evaluation.' % (len(ODD_FLAGS), len(PROGRAMS)),
         'exhaustive': not ABORT.value,
         'aborted_after_violation': bool(ABORT.value),
         'bounds': b,
